@@ -41,13 +41,33 @@ spec fn eih_plain(kind: CipherKind, key: Seq<u8>, salt: Seq<u8>, eih: Seq<u8>) -
     let sub = blake3_kdf("shadowsocks 2022 identity subkey"@, key + salt);
     if kind is Aead2022Blake3Aes128Gcm { aes_ecb_dec(128, sub.take(16), eih) } else { aes_ecb_dec(256, sub.take(32), eih) }
 }
-/// aead_2022/tcp.rs with_eih / make_eih (iterator adapters): appends one 16-byte identity header per identity key
-uninterp spec fn eih_bytes(kind: CipherKind, key: Seq<u8>, identity_keys: Seq<Seq<u8>>, salt: Seq<u8>) -> Seq<u8>;
-#[verifier::external_body]
-fn a22tcp__with_eih<const N: usize>(kind: &CipherKind, key: &[u8], identity_keys: &[[u8; N]], salt: &[u8], dst: &mut BytesMut)
-    ensures final(dst)@ == old(dst)@ + eih_bytes(*kind, key@, identity_keys@.map_values(|k: [u8; N]| k@), salt@),
-        eih_bytes(*kind, key@, identity_keys@.map_values(|k: [u8; N]| k@), salt@).len() == 16 * identity_keys@.len()
-{ unimplemented!() }
+/// SIP022 3.1.4, sender side: one 16-byte identity header per identity key iPSK_j: AES-ECB under the identity sub-key of iPSK_j (derived with the
+/// request salt) of hash(next key)[0..16], where the next key is iPSK_{j+1}, and the user key for the last header
+spec fn eih_sub(ipsk: Seq<u8>, salt: Seq<u8>) -> Seq<u8> { blake3_kdf("shadowsocks 2022 identity subkey"@, ipsk + salt) }
+spec fn eih_one(kind: CipherKind, sub: Seq<u8>, next: Seq<u8>) -> Seq<u8> {
+    if kind is Aead2022Blake3Aes128Gcm { aes_ecb_enc(128, sub.take(16), blake3_hash(next).take(16)) } else { aes_ecb_enc(256, sub.take(32), blake3_hash(next).take(16)) }
+}
+/// headers 0..n of the chain (header j names iPSK_{j+1})
+spec fn eih_prefix(kind: CipherKind, iks: Seq<Seq<u8>>, salt: Seq<u8>, n: int) -> Seq<u8>
+    decreases n
+{
+    if n <= 0 { Seq::empty() } else { eih_prefix(kind, iks, salt, n - 1) + eih_one(kind, eih_sub(iks[n - 1], salt), iks[n]) }
+}
+spec fn eih_bytes(kind: CipherKind, key: Seq<u8>, identity_keys: Seq<Seq<u8>>, salt: Seq<u8>) -> Seq<u8> {
+    if identity_keys.len() == 0 { Seq::empty() }
+    else { eih_prefix(kind, identity_keys, salt, identity_keys.len() - 1) + eih_one(kind, eih_sub(identity_keys.last(), salt), key) }
+}
+proof fn lemma_eih_prefix_len(kind: CipherKind, iks: Seq<Seq<u8>>, salt: Seq<u8>, n: int)
+    requires 0 <= n
+    ensures eih_prefix(kind, iks, salt, n).len() == 16 * n
+    decreases n
+{
+    if n > 0 {
+        lemma_eih_prefix_len(kind, iks, salt, n - 1);
+        axiom_ecb_inverse(128, eih_sub(iks[n - 1], salt).take(16), blake3_hash(iks[n]).take(16));
+        axiom_ecb_inverse(256, eih_sub(iks[n - 1], salt).take(32), blake3_hash(iks[n]).take(16));
+    }
+}
 /// manager/shadowsocks.rs ServerUserManager (HashMap keyed by identity hash)
 #[verifier::external_body]
 struct ServerUserManager<const N: usize> { _u: u8 }
@@ -327,6 +347,61 @@ fn a22tcp__new_decoder_with_eih<const N: usize>(
     } else {
         return Err(verif_err())
     }
+}
+
+//@@ octo-squirrel/src/codec/shadowsocks/aead_2022/tcp.rs:65-77  fn with_eih  sha=46b0d27b4b9dc461
+fn a22tcp__with_eih<const N: usize>(kind: &CipherKind, key: &[u8], identity_keys: &[[u8; N]], salt: &[u8], dst: &mut BytesMut)
+    requires kind.has_eih(),
+    ensures
+        //#C03 C06
+        final(dst)@ == old(dst)@ + eih_bytes(*kind, key@, identity_keys@.map_values(|k: [u8; N]| k@), salt@),
+        eih_bytes(*kind, key@, identity_keys@.map_values(|k: [u8; N]| k@), salt@).len() == 16 * identity_keys@.len(),
+{
+    let ghost iks = identity_keys@.map_values(|k: [u8; N]| k@);
+    let mut sub_key: Option<[u8; blake3::OUT_LEN]> = None;
+    for ipsk in it: identity_keys.iter()
+        invariant
+            kind.has_eih(), iks == identity_keys@.map_values(|k: [u8; N]| k@), it.index@ <= identity_keys@.len(),
+            it.index@ == 0 ==> sub_key is None && dst@ == old(dst)@,
+            it.index@ > 0 ==> (sub_key matches Some(sk) && sk@ == eih_sub(iks[it.index@ - 1], salt@)) && dst@ == old(dst)@ + eih_prefix(*kind, iks, salt@, it.index@ - 1),
+    {
+        let ghost idx = it.index@;
+        proof { assert(ipsk@ == iks[idx]); }
+        if let Some(sub_key) = sub_key {
+            a22tcp__make_eih(kind, &sub_key, ipsk, dst)
+        }
+        proof { if idx > 0 { assert(dst@ =~= old(dst)@ + eih_prefix(*kind, iks, salt@, idx)); } }
+        let key_material = verif_concat2(ipsk, salt);
+        sub_key = Some(blake3::derive_key("shadowsocks 2022 identity subkey", &key_material))
+    }
+    proof { let n = identity_keys@.len() as int; if n > 0 { lemma_eih_prefix_len(*kind, iks, salt@, n - 1); axiom_ecb_inverse(128, eih_sub(iks.last(), salt@).take(16), blake3_hash(key@).take(16)); axiom_ecb_inverse(256, eih_sub(iks.last(), salt@).take(32), blake3_hash(key@).take(16)); } }
+    if let Some(sub_key) = sub_key {
+        a22tcp__make_eih(kind, &sub_key, key, dst)
+    }
+    proof { assert(dst@ =~= old(dst)@ + eih_bytes(*kind, key@, iks, salt@)); }
+}
+
+//@@ octo-squirrel/src/codec/shadowsocks/aead_2022/tcp.rs:79-91  fn make_eih  sha=ecd643937aab1dec
+fn a22tcp__make_eih(kind: &CipherKind, sub_key: &[u8], ipsk: &[u8], out: &mut BytesMut)
+    requires kind.has_eih(), sub_key@.len() >= 32,
+    ensures
+        //#C03 C06 C16
+        final(out)@ == old(out)@ + eih_one(*kind, sub_key@, ipsk@),
+{
+    let ipsk_hash = blake3::hash(ipsk);
+    let ipsk_plain_text = &ipsk_hash.as_bytes()[..16];
+    let mut ipsk_encrypt_text = [0; 16];
+    ipsk_encrypt_text.copy_from_slice(ipsk_plain_text);
+    let ghost pt = ipsk_encrypt_text@;
+    proof { assert(pt =~= blake3_hash(ipsk@).take(16)); assert(pt.take(16) =~= pt); assert(pt.skip(16) =~= Seq::<u8>::empty()); }
+    match kind {
+        CipherKind::Aead2022Blake3Aes128Gcm => Aes128EcbNoPadding::encrypt(sub_key, &mut ipsk_encrypt_text, 16),
+        CipherKind::Aead2022Blake3Aes256Gcm => Aes256EcbNoPadding::encrypt(sub_key, &mut ipsk_encrypt_text, 16),
+        _ => verif_panic(),
+    }
+    /*R2*/
+    proof { assert(ipsk_encrypt_text@ =~= eih_one(*kind, sub_key@, ipsk@)); }
+    out.extend_from_slice(&ipsk_encrypt_text);
 }
 
 //@@ octo-squirrel/src/codec/shadowsocks/tcp.rs:29-35  struct Context  sha=f38c8bead60f1e38
